@@ -17,7 +17,7 @@ from ..worlds import relay
 ID = "C13"
 LEVEL = "exploration"
 CHUNK = 40
-BUDGET = {"quick": {"runs": 2500, "wall": 150}, "thorough": {"runs": 100000, "wall": 3000}}
+BUDGET = {"quick": {"runs": 2500, "wall": 150}, "thorough": {"runs": 100000, "wall": 1200}}
 RULE = ("1-3 connections x scripts of 3-14 frames over REQ (valid, empty, partly and wholly invalid "
         "filter lists; fresh, reused, non-string and hostile ids), CLOSE (open / unknown id), EVENT, "
         "barrier, disconnect; subscription_limit 2-4; slow consumers; preloaded store of 0-8 events; both "
